@@ -4,7 +4,10 @@
    backlog stays below the capacity; an UnableToKeepUp report, nothing delivered and a restart
    behind everything transmitted when lapped. Buffer dumps are not part of the property. *)
 From Coq Require Import String.
-Require Import V.Base.MachineInt V.Model.Broadcast V.Model.BroadcastShow V.Spec.Lossy.
+Require Import V.Base.MachineInt.
+Require Import V.Model.Broadcast.
+Require Import V.Model.BroadcastShow.
+Require Import V.Spec.Lossy.
 Open Scope Z_scope.
 
 Definition err_tag (e : err) : Z * Z :=
